@@ -6,7 +6,7 @@
      user features (tag, value, start, end), in request order
        --add_feature-->  feature ranges (AAT type, selector, exclusive; start, end)
             gate: the font must have a `feat` table; 'aalt' needs feat type 17 with settings and takes
-            the VALUE as selector (u16::try_from(value).unwrap(): a value above 0xFFFF panics);
+            the VALUE as selector (a value above 0xFFFF contributes nothing);
             other tags go through the mapping table (Gen/MorxFeatMap.v, binary search = lookup by tag),
             need a feat record of the mapped type with at least one setting (lower-case small caps
             falls back to the letter-case record), selector = enable if value <> 0 else disable
@@ -60,7 +60,7 @@ Definition add_feature (feat : option feat_table) (f : ufeature) : result (list 
       match feat_exposed t aat_type_character_alternatives with
       | None => Ok []
       | Some _ =>
-        if 65535 <? uf_value f then Error UnwrapNone       (* u16::try_from(value).unwrap() *)
+        if 65535 <? uf_value f then Ok []                  (* a selector beyond u16 matches nothing (fixed in 7c3bda2; it panicked) *)
         else Ok [mkFR (mkFI aat_type_character_alternatives (uf_value f) true) (uf_start f) (uf_end f)]
               (* falls through to the mapping lookup, where 'aalt' is not found *)
       end
